@@ -384,7 +384,8 @@ theorem sim_save (cfg : Cfg) (sig : List (String × Bool)) (tnames : List String
   by_cases h1 : (!(guardHits cfg.deep sig s0.cv).isEmpty) = true
   · simp only [h1, if_true]; exact sim_throw _ _
   · simp only [h1, Bool.false_eq_true, if_false]
-    by_cases h2 : (cfg.refuse && !(destHits (joinPath dir (name ++ ".data")) s0.heap s0.cv).isEmpty) = true
+    by_cases h2 : ((cfg.refuse && !(destHits (joinPath dir (name ++ ".data")) s0.heap s0.cv).isEmpty) ||
+        (cfg.refuseModel && !(destHits (joinPath dir name) s0.heap s0.cv).isEmpty)) = true
     · simp only [h2, if_true]; exact sim_throw _ _
     · simp only [h2, Bool.false_eq_true, if_false]
       by_cases h3 : cfg.keepNames = true
